@@ -840,15 +840,18 @@ func (g *G) AnyResultType() *m.Type {
 // call arguments (operator operands, conditional parts, receivers), list
 // elements, map keys and values, object fields, subscript operands and the
 // object of a member access. Apply before Parenthesize.
-func WrapTr(e *m.Expr, next *int) *m.Expr {
+func WrapTr(e *m.Expr, next *int, keep func() bool) *m.Expr {
 	n := *e
 	n.A = make([]*m.Expr, len(e.A))
 	for i, a := range e.A {
-		n.A[i] = WrapTr(a, next)
+		n.A[i] = WrapTr(a, next, keep)
 	}
 	wrap := func(i int) {
 		if n.A[i].K == "call" && n.A[i].Name == "tr" {
 			return
+		}
+		if keep != nil && keep() {
+			return // some operands stay bare (a back end may treat call-free operands specially)
 		}
 		*next++
 		n.A[i] = m.Call("tr", m.Lit("num", strconv.Itoa(*next)), n.A[i])
@@ -876,7 +879,7 @@ func WrapTr(e *m.Expr, next *int) *m.Expr {
 func (g *G) ExprTraced(want *m.Type) *m.Expr {
 	e := g.expr(want, g.O.Fuel)
 	next := 1000
-	e = WrapTr(e, &next)
+	e = WrapTr(e, &next, func() bool { return g.chance("bare", 1, 5) })
 	e = Parenthesize(e)
 	if g.O.Sugar {
 		e = g.redundantGroups(e)
